@@ -17,8 +17,14 @@ def run(ctx):
     from rules import lib_core
     rcf = ctx.rule('R-CASFRESH', 'in a compare-exchange retry loop every attempt re-tests the refreshed expected value '
                    'against what the first attempt tested (sentinels are never overwritten by a retry)', minimum=6)
+    from rules import c11
+    rwr = ctx.rule('R-WAITRETURN', 'a multi-future wait returns only with last-one evidence obtained through the '
+                   'counter\'s acquiring RMW (or after the untimed wait): that RMW is the only edge that makes the Results '
+                   'visible to the waiter and keeps the stack event alive for the producers', minimum=4)
     tot = 0
     for cfg, fb in sorted(fbs.items()):
+        if cfg != 'K20n':
+            ctx.guard(lambda: c11.check_wait_return(ctx, fb, rwr))
         ctx.guard(lambda: lib_order.check_cas_fresh(ctx, fb, rcf))
         ctx.guard(lambda: lib_core.check_undefined_inline(ctx, fb, rodr))
         words = lib_order.WORDS.keys()
